@@ -90,6 +90,17 @@ class SymFactory(object):
     def view(self, arr, key):
         return self.ip.arr_index(arr, key)
 
+    def reshape(self, arr, shape):
+        return self.ip.reshape(arr, shape)
+
+    def min(self, a, b):
+        from .sym import mk_ite, mk_cmp, is_sym
+        return mk_ite(mk_cmp('<=', a, b), a, b) if (is_sym(a) or is_sym(b)) else min(a, b)
+
+    def max(self, a, b):
+        from .sym import mk_ite, mk_cmp, is_sym
+        return mk_ite(mk_cmp('>=', a, b), a, b) if (is_sym(a) or is_sym(b)) else max(a, b)
+
     # objects ---------------------------------------------------------------
     def cls(self, ref):
         mod, name = ref.split(':')
@@ -332,6 +343,15 @@ class ConcFactory(object):
 
     def view(self, arr, key):
         return arr[key]
+
+    def reshape(self, arr, shape):
+        return arr.reshape(shape)
+
+    def min(self, a, b):
+        return min(a, b)
+
+    def max(self, a, b):
+        return max(a, b)
 
     def cls(self, ref):
         mod, name = ref.split(':')
